@@ -6,6 +6,9 @@ import Mathlib.Analysis.Calculus.Deriv.Add
 import Mathlib.Analysis.Calculus.Deriv.Mul
 import Mathlib.Analysis.Calculus.Deriv.Comp
 import Mathlib.Analysis.Calculus.Deriv.Slope
+import Mathlib.Data.Fintype.OfMap
+import Mathlib.Data.Fintype.Basic
+import Mathlib.Data.Fintype.Prod
 import Mathlib.Tactic.Ring
 import Mathlib.Tactic.FieldSimp
 import Mathlib.Tactic.Positivity
@@ -22,6 +25,17 @@ import Mathlib.Tactic.Linarith
 open Finset
 namespace CuqiVerif.C03
 open CuqiVerif RExpr
+
+/-! finite enumerations of the decision-table types (so that table theorems are closed by `decide`) -/
+instance : Fintype Family := Fintype.ofList
+  [.gaussian, .gmrf, .cmrf, .cauchy, .beta, .invgamma, .lognormal, .smoothedLaplace, .mhn, .uniform,
+   .userWithGrad, .userNoGrad, .other] (by intro x; cases x <;> simp)
+instance : Fintype Geom := Fintype.ofList [.identity, .nonIdWithGrad, .nonIdNoGrad] (by intro x; cases x <;> simp)
+instance : Fintype Cond := Fintype.ofList [.no, .callable, .model] (by intro x; cases x <;> simp)
+instance : Fintype PrecForm := Fintype.ofList
+  [.na, .matrix, .precScalarDim1, .precScalarDimN, .precVector, .sqrtprec] (by intro x; cases x <;> simp)
+instance : Fintype Status := Fintype.ofList
+  [.value, .valueFD, .raises, .nan, .none, .notVector] (by intro x; cases x <;> simp)
 
 /-- environment `x, p1, p2, p3` of a scalar component -/
 def env4 (x a b c : ℝ) : ℕ → ℝ := fun k => match k with | 0 => x | 1 => a | 2 => b | _ => c
